@@ -14,6 +14,7 @@ package props
 import (
 	"fmt"
 	"math/rand"
+	"sort"
 
 	"go.sia.tech/core/consensus"
 	"go.sia.tech/core/types"
@@ -409,24 +410,69 @@ func runC02(c *fw.Ctx) {
 				}
 				consumed[id] = height
 			}
+			// what the block consumes is read from the block itself (not from what the code reports) …
+			used := map[types.Hash256]string{}
+			for _, t := range p.Block.Transactions {
+				for _, in := range t.SiacoinInputs {
+					used[types.Hash256(in.ParentID)] = "siacoin"
+				}
+				for _, in := range t.SiafundInputs {
+					used[types.Hash256(in.ParentID)] = "siafund"
+				}
+				for _, sp := range t.StorageProofs {
+					used[types.Hash256(sp.ParentID)] = "v1-contract"
+				}
+			}
+			for _, e := range p.Supp.ExpiringFileContracts {
+				used[types.Hash256(e.ID)] = "v1-contract"
+			}
+			for _, t := range p.Block.V2Transactions() {
+				for _, in := range t.SiacoinInputs {
+					used[types.Hash256(in.Parent.ID)] = "siacoin"
+				}
+				for _, in := range t.SiafundInputs {
+					used[types.Hash256(in.Parent.ID)] = "siafund"
+				}
+				for _, r := range t.FileContractResolutions {
+					used[types.Hash256(r.Parent.ID)] = "v2-contract"
+				}
+			}
+			for _, id := range sortedHashKeys(used) {
+				note(id, used[id])
+			}
+			// … and every consumed element must be REPORTED consumed by the update (a created-and-spent output too):
+			// a client that follows the diffs must never be told that a consumed element is still live
+			reported := map[types.Hash256]bool{}
 			for _, d := range au.SiacoinElementDiffs() {
 				if d.Spent {
-					note(types.Hash256(d.SiacoinElement.ID), "siacoin")
+					reported[types.Hash256(d.SiacoinElement.ID)] = true
 				}
 			}
 			for _, d := range au.SiafundElementDiffs() {
 				if d.Spent {
-					note(types.Hash256(d.SiafundElement.ID), "siafund")
+					reported[types.Hash256(d.SiafundElement.ID)] = true
 				}
 			}
 			for _, d := range au.FileContractElementDiffs() {
 				if d.Resolved {
-					note(types.Hash256(d.FileContractElement.ID), "v1-contract")
+					reported[types.Hash256(d.FileContractElement.ID)] = true
 				}
 			}
 			for _, d := range au.V2FileContractElementDiffs() {
 				if d.Resolution != nil {
-					note(types.Hash256(d.V2FileContractElement.ID), "v2-contract")
+					reported[types.Hash256(d.V2FileContractElement.ID)] = true
+				}
+			}
+			for _, id := range sortedHashKeys(used) {
+				if !reported[id] {
+					res.Violate(fw.Violation{Key: "c02-consumed-not-reported:" + used[id], What: fmt.Sprintf("element %v is consumed by the block at height %d but the apply update does not report it spent/resolved (it stays live for every client and in the accumulator)", id, height),
+						Replay: map[string]any{"mode": mode, "seed": seed, "height": height, "id": fmt.Sprint(id)}})
+				}
+			}
+			for id := range reported {
+				if _, ok := used[id]; !ok {
+					res.Violate(fw.Violation{Key: "c02-reported-not-consumed", What: fmt.Sprintf("the apply update reports element %v spent/resolved but no transaction of the block consumes it", id),
+						Replay: map[string]any{"mode": mode, "seed": seed, "height": height, "id": fmt.Sprint(id)}})
 				}
 			}
 		}
@@ -514,4 +560,13 @@ func crossBlockMutants(s *chain.Sim, p chain.BlockPlan, sc []types.SiacoinElemen
 		}
 	}
 	return out
+}
+
+func sortedHashKeys(m map[types.Hash256]string) []types.Hash256 {
+	ks := make([]types.Hash256, 0, len(m))
+	for k := range m {
+		ks = append(ks, k)
+	}
+	sort.Slice(ks, func(i, j int) bool { return string(ks[i][:]) < string(ks[j][:]) })
+	return ks
 }
